@@ -24,5 +24,7 @@ def setup(ctx: RunCtx):
     reg.T = T
     for c in c01.status_contracts(T, reg, ctx.repo, pid="C01"):
         reg.add(c)
+    from .common import CALL, ID, TASK
+    reg.ann_types = dict(getattr(reg, "ann_types", {}), InvocationId=ID, CallId=CALL, TaskId=TASK)
     G = glue.glue_contracts(T, reg)
     return T, reg, G
